@@ -126,7 +126,9 @@ def r1_no_data(P, rep, ctx):
     fnfi = P.func(f"{S}.SkeletonNodeInfo.for_node")
     fn = F(ctx, fnfi)
     nd = fnfi.params[1]
-    okn = bool(fn.tests(f"isinstance({nd}, IH5Dataset)"))
+    okn = bool(fn.tests(f"isinstance({nd}, IH5Dataset)", f"isinstance({nd}, IH5Group)"))
+    # the same decision written as a conditional expression
+    okn = okn or any(isinstance(x, ast.IfExp) and MM.match(f"isinstance({nd}, __t)", MM.polarity(x.test)[0]) is not None and {norm(x.body), norm(x.orelse)} == {"H5Type.dataset", "H5Type.group"} for x in ast.walk(fnfi.node))
     comp = [x for x in ast.walk(fnfi.node) if isinstance(x, ast.DictComp) and len(x.generators) == 1 and norm(x.generators[0].iter) in (f"{nd}.attrs.keys()", f"{nd}.attrs") and not x.generators[0].ifs and norm(x.key) == norm(x.generators[0].target)]
     loops = [n for n in fn.g.nodes if n.kind == "for" and fn.x(n.stmt.iter) in (f"{nd}.attrs.keys()", f"{nd}.attrs")]
     rep.check(okn and (bool(comp) or bool(loops)), "C10.R1", fnfi.qual, "each node records its kind and all attribute names", fnfi.loc(), construct="for_node", message="SkeletonNodeInfo.for_node does not record node kind and all attribute names")
@@ -208,12 +210,12 @@ def r3_stub_owner(P, rep, ctx):
 
 def r4_stub_base_only(P, rep, ctx):
     fi = P.func(f"{MF}._check_ublock")
-    asserts = [x for x in walk_local(fi.node) if isinstance(x, ast.Assert)]
     ff = F(ctx, fi)
-    raises = [t for t in ff.g.nodes if t.kind == "test" and "is_stub_container" in norm(t.exprs[0])]
-    ok = any(MM.equivalent(ff.xe(a.test), f"{fi.params[3]} is None or IH5UBExtManifest.get({fi.params[2]}) is None or (not IH5UBExtManifest.get({fi.params[2]}).is_stub_container)") for a in asserts) or bool(raises)
+    ubv, pvv = fi.params[2], fi.params[3]
+    EXT = f"IH5UBExtManifest.get({ubv})"
+    ok = ff.refuses_when([[f"{pvv} is not None"], [f"{EXT} is not None"], [f"{EXT}.is_stub_container"]]) is True
     rep.check(ok, "C10.R4", fi.qual, "a stub-marked container is only accepted as base (no predecessor)", fi.loc(), construct="stub-as-patch rejection", message="IH5MFRecord._check_ublock accepts a stub-marked container on top of another container")
-    if asserts and not raises:
+    if any(isinstance(x, ast.Assert) and "is_stub_container" in norm(x.test) for x in walk_local(fi.node)):
         rep.info("stub-only-as-base is enforced by an `assert` (removed under python -O): weak, not a violation")
     from .c05 import stub_refusal
 
@@ -293,7 +295,10 @@ def r5_manifest_hash(P, rep, ctx):
             cv = m["__u"].id
             cp_def = [d for k, d in local_defs(fufi).get(cv, []) if d is not None]
             strip = [(j, val) for j, val, b in fu.stores(f"{cv}.ub_exts")]
-            oku = [norm(d) for d in cp_def] == [f"{ubp}.copy()"] and bool(strip) and all(isinstance(val, ast.DictComp) and len(val.generators) == 1 and norm(val.generators[0].iter) == f"{ubp}.ub_exts.items()" and len(val.generators[0].ifs) == 1 and MM.equivalent(val.generators[0].ifs[0], f"{norm(val.generators[0].target.elts[0])} != IH5UBExtManifest.ext_name()") for j, val in strip) and fu.hit_before(i, nodes=[j for j, val in strip])
+            oku = [norm(d) for d in cp_def] == [f"{ubp}.copy()"] and bool(strip) and fu.hit_before(i, nodes=[j for j, val in strip])
+            for j, val in strip:
+                df = fu.dict_filter(val)
+                oku = oku and df is not None and df["src"] == f"{ubp}.ub_exts.items()" and MM.equivalent(df["kept"], f"{df['key']} != IH5UBExtManifest.ext_name()")
     rep.check(oku, "C10.R5", fufi.qual, "the manifest embeds a copy of the user block without the (circular) manifest extension, under a fresh uuid", fufi.loc(), construct="from_userblock", message="from_userblock changed shape")
     exc = [n for n in g.nodes if n.kind == "except"]
     olds = f.call_sites("self._set_ublock(-1, __o)")
